@@ -98,7 +98,7 @@ fn run<T: Sc>(case: &C16Case) -> Check {
         }
     }
     out.class(format!("max-arity={max_arity}"));
-    out.class(format!("P={}", exp.p));
+    out.class(if exp.p <= 10 { format!("P={}", exp.p) } else if exp.p <= 64 { "P=11..64".to_string() } else if exp.p <= 128 { "P=65..128".to_string() } else { "P>128".to_string() });
     out.class(if case.f32 { "f32" } else { "f64" });
     if case.prog.calls.iter().any(|c| matches!(c, Call::Invariant { .. })) {
         out.class("with-invariant");
@@ -112,7 +112,7 @@ impl Property for C16 {
         "C16"
     }
     fn rule(&self) -> String {
-        "proptest: model parameter lists of length 1..10 (random arrangement of names), functions of arity 1..10 over random ordered subsets, derivative calls in random order, invariant functions and x / initial_parameters at random positions, f32/f64, integer-valued alpha. Function j evaluates x_i + tag_j + sum_k q_jk a_k and its derivative w.r.t. a named parameter tag' + x_i + sum q'_k a_k with distinct small integer coefficients (position sensitive, exactly representable). Oracle: eval() and eval_partial_deriv(k) are bitwise equal to matrices computed directly from the generated description; zero columns exactly zero; params() returns what was set, in model order; parameters() is the declared list. Non-trivial: some function of arity >= 2 whose parameter order differs from the model order".into()
+        "proptest: model parameter lists of length 1..10 (1 of 64: 60..139; random arrangement of names), functions of arity 1..10 over random ordered subsets, derivative calls in random order, invariant functions and x / initial_parameters at random positions, f32/f64, integer-valued alpha. Function j evaluates x_i + tag_j + sum_k q_jk a_k and its derivative w.r.t. a named parameter tag' + x_i + sum q'_k a_k with distinct small integer coefficients (position sensitive, exactly representable). Oracle: eval() and eval_partial_deriv(k) are bitwise equal to matrices computed directly from the generated description; zero columns exactly zero; params() returns what was set, in model order; parameters() is the declared list. Non-trivial: some function of arity >= 2 whose parameter order differs from the model order".into()
     }
     fn cases(&self, tier: Tier) -> usize {
         match tier {
@@ -123,10 +123,11 @@ impl Property for C16 {
     fn strategy(&self, _tier: Tier) -> BoxedStrategy<C16Case> {
         (proptest::collection::vec(any::<u16>(), 160), any::<u16>(), any::<u16>(), any::<u16>(), proptest::collection::vec(proptest::collection::vec(0i32..40, 10), 0..3), any::<bool>())
             .prop_map(|(us, l, mf, ma, alphas, f32)| {
-                let l = if l % 4 == 0 { 10 } else { 1 + pick(l, 10) };
+                // 1 of 64 models is large: 60..139 parameters (more than 64, more than 128)
+                let l = if l % 64 == 1 { 60 + pick(l.rotate_left(5), 80) } else if l % 4 == 0 { 10 } else { 1 + pick(l, 10) };
                 let max_arity = if ma % 4 == 0 { 10 } else { 1 + pick(ma, 10) };
                 let prog = valid_program(&us, l, 1 + pick(mf, 4), max_arity, 1 + pick(us[0], 6));
-                let alphas = alphas.into_iter().map(|v| v[..l].iter().enumerate().map(|(i, x)| x + 41 * (i as i32 % 2)).collect()).collect();
+                let alphas = alphas.into_iter().map(|v| (0..l).map(|i| v[i % v.len()] + 41 * (i as i32 % 2) + (i / 10) as i32).collect()).collect();
                 C16Case { prog, alphas, f32 }
             })
             .boxed()
